@@ -62,7 +62,9 @@ class Module:
         self._scan()
 
     def _seg(self, node):
-        return ast.get_source_segment(self.src, node) or ''
+        if not hasattr(self, '_lines'):
+            self._lines = self.src.split('\n')
+        return '\n'.join(self._lines[node.lineno - 1:node.end_lineno])
 
     def _scan(self):
         for st in self.tree.body:
